@@ -5,7 +5,10 @@
 // T records (implementation-side oracle, checked in Python):
 //   T cfg secure=<0|1> debug=<n> padding=<n> encode=<0|1> pad_size=<n>
 //   T begin <ep> <kind> ...        printed (and flushed) before an attack, so that a crash has a witness
-//   T ep <ep> kind=<double|overflow|link> req=<n> bsu=<n> delta=<n> v=<n> wkind=<n> errs=<a,b,..> pre=<n> post=<n>
+//        (kind overflow_mt: the overflowed block is freed through the cross-thread path, wkind=0 by a real
+//         second pthread calling mi_free, wkind=1 by a direct call of mi_free_generic_mt; before it up to three
+//         untouched blocks are freed the same way and must report nothing; requested sizes 1..40)
+//   T ep <ep> kind=<double|overflow|link|overflow_mt> req=<n> bsu=<n> delta=<n> v=<n> wkind=<n> errs=<a,b,..> pre=<n> post=<n>
 //        dup=<n> outside=<n> spurious=<n> patbad=<n> reached=<0|1>
 // F records (compared with the extracted Coq model Model/Secure.v by ocaml/mode_secure.ml):
 //   F const <name> <value>
@@ -20,6 +23,7 @@
 #include <inttypes.h>
 #include <signal.h>
 #include <unistd.h>
+#include <pthread.h>
 #include "prng.h"
 
 #define U(x) ((unsigned long long)(x))
@@ -101,13 +105,27 @@ static int has_page_mate(int k) {
   return 0;
 }
 
+// free p through the cross-thread path: a real second thread, or mi_free_generic_mt called directly
+static void* mt_free_thread(void* p) { mi_free(p); return NULL; }
+static void free_cross_thread(void* p, int direct) {
+  if (direct) {
+    mi_segment_t* seg = _mi_ptr_segment(p);
+    mi_free_generic_mt(_mi_segment_page_of(seg, p), seg, p);
+  }
+  else {
+    pthread_t t;
+    if (pthread_create(&t, NULL, &mt_free_thread, p) == 0) pthread_join(t, NULL);
+    else mi_free_generic_mt(_mi_ptr_page(p), _mi_ptr_segment(p), p);
+  }
+}
+
 static const size_t t_sizes[] = { 8, 24, 40, 56, 72, 1, 7, 9, 16, 23, 39, 55, 100, 104, 119, 120, 200, 248, 500, 504, 1000, 1016, 2000, 4088, 8000 };
 #define NT_SIZES (sizeof(t_sizes)/sizeof(t_sizes[0]))
 
-static void t_episode(prng_t* g, int ep, int kind, int full_check) {
+static void t_episode(prng_t* g, int ep, int kind, int full_check, size_t fixed_req) {
   mi_heap_t* heap = mi_heap_new();
   nlive = 0; n_dup = n_outside = n_spurious = n_patbad = 0;
-  size_t req = t_sizes[prng_below(g, NT_SIZES)];
+  size_t req = (kind == 3 ? fixed_req : t_sizes[prng_below(g, NT_SIZES)]);
   // usable block size of the class
   uint8_t* probe = t_alloc(heap, req, g, full_check);
   size_t bsu = mi_page_usable_block_size(_mi_ptr_page(probe));
@@ -183,6 +201,37 @@ static void t_episode(prng_t* g, int ep, int kind, int full_check) {
       post += total;
     }
   }
+  else if (kind == 3) {
+    wkind = prng_below(g, 2);
+    printf("T begin %d overflow_mt req=%llu direct=%llu\n", ep, U(req), U(wkind)); fflush(stdout);
+    g_stage = "overflow-mt-clean";
+    // untouched blocks freed through the cross-thread path report nothing
+    for (int c = 0; c < 3 && nlive > 1; c++) {
+      int k = -1;
+      for (int i = 0; i < nlive; i++) if (live[i].sz == req) { k = i; break; }
+      if (k < 0) break;
+      t_check_pattern(k);
+      g_nerr = 0;
+      free_cross_thread(live[k].p, (int)wkind);
+      if (g_nerr != 0) n_spurious++;
+      live[k] = live[--nlive];
+    }
+    uint8_t* p = t_alloc(heap, req, g, full_check);
+    if (g_nerr) n_spurious++;
+    int k = nlive - 1;
+    size_t bsu2 = mi_page_usable_block_size(_mi_ptr_page(p));
+    delta = bsu2 - req;
+    uint8_t expected = (delta > 0 ? MI_DEBUG_PADDING : 0);
+    do { v = prng_next(g) & 0xff; } while (v == expected);
+    p[req] = (uint8_t)v;                      // one foreign byte just past the requested size
+    g_stage = "overflow-mt-free";
+    t_check_pattern(k);
+    g_nerr = 0;
+    free_cross_thread(p, (int)wkind);         // freed by "another thread"
+    anerr = g_nerr; memcpy(aerr, g_errs, sizeof(int) * (size_t)(anerr < 64 ? anerr : 64));
+    live[k] = live[--nlive];
+    reached = 1;
+  }
   else {
     printf("T begin %d overflow req=%llu\n", ep, U(req)); fflush(stdout);
     uint8_t* p = t_alloc(heap, req, g, full_check);
@@ -202,7 +251,8 @@ static void t_episode(prng_t* g, int ep, int kind, int full_check) {
     reached = 1;
   }
   // afterwards (secure build): the heap stays usable
-  if (full_check) {
+  // (not after a cross-thread free: the owner checks the block again when it processes its delayed frees)
+  if (full_check && kind != 3) {
     g_stage = "after";
     int n = 200 + (int)prng_below(g, 200);
     for (int i = 0; i < n; i++) {
@@ -212,7 +262,7 @@ static void t_episode(prng_t* g, int ep, int kind, int full_check) {
     }
     while (nlive > 0) t_free_slot(nlive - 1);
   }
-  printf("T ep %d kind=%s req=%llu bsu=%llu delta=%llu v=%llu wkind=%llu errs=", ep, kind == 0 ? "double" : kind == 1 ? "overflow" : "link",
+  printf("T ep %d kind=%s req=%llu bsu=%llu delta=%llu v=%llu wkind=%llu errs=", ep, kind == 0 ? "double" : kind == 1 ? "overflow" : kind == 2 ? "link" : "overflow_mt",
          U(req), U(bsu), U(delta), U(v), U(wkind));
   g_nerr = anerr; memcpy(g_errs, aerr, sizeof(int) * (size_t)(anerr < 64 ? anerr : 64)); print_errs_csv();
   printf(" pre=%d post=%d dup=%d outside=%d spurious=%d patbad=%d reached=%d\n", pre, post, n_dup, n_outside, n_spurious, n_patbad, reached);
@@ -478,8 +528,8 @@ int main(int argc, char** argv) {
     printf("F rotr %llu %llu = %llu\n", U(p), U(keys[0]), U(mi_rotr(p, keys[0])));
   }
   // T: API-level episodes (the consistency-after-error clause only in the secure build)
-  int nt = thorough ? 1500 : 240;
-  for (int ep = 0; ep < nt; ep++) t_episode(&g, ep, ep % 3, SECURE_BUILD);
+  int nt = thorough ? 2000 : 320;
+  for (int ep = 0; ep < nt; ep++) t_episode(&g, ep, ep % 4, SECURE_BUILD, 1 + (size_t)((ep / 4) % 40));
   // F: page-level episodes
   int nf = thorough ? 240 : 45;
   for (int ep = 0; ep < nf; ep++) {
